@@ -1,5 +1,6 @@
 // C15 — permuting dimensions relabels axes without changing the function: the permutation group as a state graph.
 #include "engine/vf.hpp"
+#include <algorithm>
 #include "engine/tablegen.hpp"
 #include "engine/evalspace.hpp"
 #include "ref/bspline_ref.hpp"
@@ -111,6 +112,8 @@ static void explore(int n) {
     // malformed arguments at every state: exception and unchanged table
     { Table t; rebuild(path, t); std::string before = canon(t);
       std::vector<Perm> bad; { Perm b = id; b.push_back(n); bad.push_back(b); } if (n > 0) { Perm b = id; b.pop_back(); bad.push_back(b); } if (n > 1) { Perm b = id; b[0] = b[1]; bad.push_back(b); } { Perm b = id; b[n - 1] = n; bad.push_back(b); } { Perm b = id; b[0] = (size_t)-1; bad.push_back(b); } bad.push_back(Perm());
+      // values that alias a valid index when narrowed to 32 or 16 bits (each entry in turn, and all at once), a repeated index plus its alias
+      if (sizeof(size_t) > 4) { for (size_t i = 0; i < n; i++) for (int sh : {16, 32, 33}) { Perm b = id; b[i] += (size_t)1 << sh; bad.push_back(b); } { Perm b = id; for (auto& e : b) e += (size_t)1 << 32; bad.push_back(b); } if (n > 1) { Perm b = id; std::reverse(b.begin(), b.end()); b[0] += (size_t)3 << 32; bad.push_back(b); } }
       for (auto& b : bad) { bool threw = false; try { t.permuteDimensions(b); } catch (std::exception&) { threw = true; } transitions++; if (!threw) H->violation("malformed-permutation-accepted", vf::fmt("[%s] state %s argument %s", ck.c_str(), vf::vecstr(cur).c_str(), vf::vecstr(b).c_str())); if (canon(t) != before) H->violation("malformed-permutation-changed-the-table", vf::fmt("[%s] argument %s", ck.c_str(), vf::vecstr(b).c_str())); }
       if (n > 1) { struct splinetable st; st.data = &t; std::vector<size_t> b(id); b[0] = b[1]; if (splinetable_permute(&st, b.data()) == 0) H->violation("C-permute-accepted-malformed-argument", ck); if (canon(t) != before) H->violation("malformed-permutation-changed-the-table", ck + " (C)"); } }
     // start from non-initial states: every permutation applied directly (all n! x n! pairs for n <= 4)
